@@ -119,7 +119,8 @@ class Gen:
     def h_session(self, F, snap_to=None, knobs=None, edit=False):
         r = self.r
         L = self.lines
-        L.append("hopen %d %d %d" % (F, r.choice([4, 5, 16]), r.choice([0, 1, 1])))
+        ndds = r.choice([4, 4, 5, 16])
+        L.append("hopen %d %d %d" % (F, ndds, r.choice([0, 1, 1])))
         nops = r.randrange(4, 15)
         vs_slots = list(range(self.vs))
         for _ in range(nops):
@@ -282,6 +283,11 @@ class Gen:
                     ty = 0
                 t, rf = r.choice(self.any) if self.any else (0, 0)
                 L.append("an %d %d %d %d %s" % (F, ty, t, rf, hexs(rbytes(r, r.choice([1, 5, 30])))))
+        if r.random() < 0.35:
+            # descriptors without data at the end of the session: with few slots per DD block one of them opens a new
+            # block, which then is the last thing in the file when it is re-opened for writing
+            for _ in range(r.choice([ndds, ndds + 1, 2]) if ndds <= 5 else 2):
+                L.append("defonly %d 1104 %d" % (F, self.newref(1104)))
         if snap_to is not None:
             L.append("snap %d %d" % (F, snap_to))
             if r.random() < 0.5:
@@ -540,7 +546,7 @@ class Gen:
 
 def gen_history(r, name, knobs=None):
     g = Gen(r, name)
-    sessions = r.choice([["h"], ["h", "h"], ["h", "he"], ["h", "he", "he"], ["lbt", "he"], ["lbt"], ["lbt", "he", "he"],
+    sessions = r.choice([["h"], ["h", "h"], ["h", "he"], ["h", "h", "he"], ["h", "sd"], ["h", "gr"], ["h", "he", "he"], ["lbt", "he"], ["lbt"], ["lbt", "he", "he"],
                          ["sd"], ["gr"], ["h", "sd"], ["sd", "h"], ["h", "gr"], ["gr", "sd"], ["sd", "sd"], ["sd2", "sd"],
                          ["sd2"], ["sd2", "sd", "sd"], ["vgs", "he"], ["vgs", "he", "he"], ["vgs", "he"], ["h", "sd", "gr"], ["sd", "gr", "he"], ["gr"], ["gr", "gr"], ["gr", "h"], ["dfsd"], ["dfsd", "h"],
                          ["h", "dfsd"], ["dfsd"]])
@@ -820,7 +826,7 @@ def compare(h, R, per_s):
             elif ht[0] == "del" or (ht[0] == "vgdel" and ht[4] == "1"):
                 purposely = True
         for k, v in sorted(keyed(S, "VG", 1).items()):
-            ms = [x for x in v if x.startswith("m=")][0][2:]
+            ms = ([x for x in v if x.startswith("m=")] or ["m=-"])[0][2:]
             for m in ([] if ms == "-" else ms.split(",")):
                 t_, r_ = m.split(":")
                 if (t_, r_) not in SE and (t_, r_) in made and not purposely:
